@@ -23,6 +23,12 @@ def coord_axis(rng, n, kind=None):
         c = [x0 - st * k for k in range(n)]
     elif kind == "neg":
         c = [Fraction(-n + k) for k in range(n)]
+    elif kind == "shuffled":
+        c = [Fraction(rng.randint(-3, 3)) + Fraction(k, 2) for k in range(n)]
+        while n > 1 and (c == sorted(c) or c == sorted(c, reverse=True)):
+            rng.shuffle(c)
+            if n == 2:
+                c = sorted(c, reverse=True); break
     else:
         c, x = [], Fraction(rng.randint(-3, 3))
         for _ in range(n):
@@ -57,7 +63,12 @@ def new_op(rng, oid, ndim=None, dims=None, shape=None, cplx=None, attrs=False, h
         op["attrs"] = {"nmr_frequency": "400000000", "name": "'s%d'" % oid, "lst": "[1,2,3]"}
         op["dattrs"] = {"experiment_type": "'nmr_spectrum'"}
     if hist:
-        op["hist"] = [["step%d" % k, sorted(rng.sample(["dim", "lw", "p0", "regions"], rng.randint(0, 3)))]
+        # earlier steps carry the names real steps record (a function that looks its own entry up by name, or filters by
+        # name, meets them) as well as arbitrary ones
+        names = ["numpy.mean", "numpy.sum", "average", "autophase", "integrate", "window", "phase_correction", "normalized",
+                 "fourier_transform", "interp", "reference", "left_shift", "remove_background"]
+        op["hist"] = [[(rng.choice(names) if rng.random() < 0.6 else "step%d" % k),
+                       sorted(rng.sample(["dim", "lw", "p0", "regions"], rng.randint(0, 3)))]
                       for k in range(hist)]
     return op
 
